@@ -61,6 +61,10 @@ def run(ctx, replay=None):
                 ctx.count(k_, v_)
             c_in = c.copy() if form_c != 'list' else c.tolist()
             v_in = (np.column_stack((v, v[::-1])) if cls == 'Cross' else v.copy())
+            if cls == 'Cross' and form_v != 'list' and rng.random() < 0.5:
+                v_in = np.array([v, v[::-1]]).T          # column-major table (transposed view): column slices are contiguous
+                case['values_layout'] = 'F'
+                ctx.count('values_layout', 'F')
             v_in = v_in if form_v != 'list' else v_in.tolist()
             c0 = np.array(c_in, float).copy() if form_c != 'metricspace' else c.copy()
             v0 = np.array(v_in, float).copy()
